@@ -16,8 +16,8 @@ try:
     am = json.load(open(wt + '/MUTANT/meta.json'))
 except Exception:
     am = {'raw': open(wt + '/MUTANT/meta.json').read()[:3000]}
-conf = [l.strip() for l in open(f'/tmp/mut/{name}.confirm') if ':' in l][-4:]
-rp = sorted(glob.glob(f'/tmp/mut/out-{name}/replays/{pid}-*.json'), key=os.path.getmtime)
+conf = [l.strip() for l in open(f'/tmp/seedwork/{name}.confirm') if ':' in l][-4:]
+rp = sorted(glob.glob(f'/tmp/seedwork/out-{name}/replays/{pid}-*.json'), key=os.path.getmtime)
 caught = {}
 if rp:
     e = json.load(open(rp[-1]))
